@@ -2,7 +2,8 @@ import FcpptModel.Prelude.Proto
 import FcpptModel.Model.C03.Shapes
 import FcpptModel.Spec.C03
 /-!
-Driver for C03.  Operations (one per line); an argument token `~` stands for the empty string.
+Driver for C03.  Operations (one per line); in an argument token `~` stands for the empty string and `\\s`, `\\t`, `\\n`,
+`\\\\` for a blank, a tab, a line break and a backslash.
 `<shape>` is a shape number of `Shapes.lean`, optionally followed by `@` and a comma-separated list of option names
 (`--long` / `-short`): the explicit `parse_context` the parser's own `parse` member is called with (default: the parser's
 own `option_names()`).
@@ -30,8 +31,18 @@ own `option_names()`).
 namespace Fcppt.C03.Drv
 open Fcppt.Proto
 
-def decodeTok (s : String) : String := if s = "~" then "" else s
-def encodeTok (s : String) : String := if s = "" then "~" else s
+/-- tokens on the lines: `~` = the empty string, `\\s` `\\t` `\\n` `\\\\` = blank, tab, line break, backslash -/
+def decodeChars : List Char → List Char
+  | '\\' :: c :: r => (if c = 's' then ' ' else if c = 't' then '\t' else if c = 'n' then '\n' else c) :: decodeChars r
+  | c :: r => c :: decodeChars r
+  | [] => []
+
+def decodeTok (s : String) : String := if s = "~" then "" else String.ofList (decodeChars s.toList)
+
+def encodeTok (s : String) : String :=
+  if s = "" then "~" else
+  String.join (s.toList.map fun c =>
+    if c = ' ' then "\\s" else if c = '\t' then "\\t" else if c = '\n' then "\\n" else if c = '\\' then "\\\\" else c.toString)
 
 /-- insertion sort of record fields by label -/
 def insertField (x : String × String) : List (String × String) → List (String × String)
